@@ -33,6 +33,9 @@ SCALARS = [
     (T("float"), {"k": "float", "f": "1234567.8901234567"}), (T("float"), {"k": "float", "f": "0.000123456789012345"}),
     (T("float", 1), {"k": "arr", "a": [{"k": "float", "f": "3.141592653589793"}, {"k": "float", "f": "1.4142135623730951"}]}),
     (T("string"), {"k": "str", "s": "a\"b\\c\n\t\r"}), (T("string"), {"k": "str", "s": "é☃😀"}), (T("string"), {"k": "str", "s": ""}),
+    (T("string"), {"k": "str", "s": "caf\u00e9 \u00b1\u00b5\u00ff\u0080\u00a0"}), (T("string"), {"k": "str", "s": "\u0100\u07ff\u0800\uffff"}),
+    (T("int", 0, 1), {"k": "obj", "o": {"cl\u00e9": {"k": "int", "i": 1}, "\u00fc": {"k": "int", "i": 2}}}),
+    (T("string", 1), {"k": "arr", "a": [{"k": "str", "s": "\u00e9"}, {"k": "str", "s": "e\u0301"}]}),
     (T("string"), {"k": "str", "s": "#x $y `z` 'q'"}), (T("string"), {"k": "str", "s": "\u0001\u001f\u007f"}),
     (T("string"), {"k": "str", "s": "</script>&<>"}), (T("string"), {"k": "str", "s": "  "}),
     (T("bool"), {"k": "bool", "b": True}), (T("bool"), {"k": "bool", "b": False}),
@@ -93,8 +96,9 @@ def rows(type_rows, limit):
     return out
 
 
-def untag_json(v):
-    """tagged value -> JSON text (numbers written as given)"""
+def untag_json(v, ascii=False):
+    """tagged value -> JSON text (numbers written as given); ascii: every non-ASCII
+    character spelled as a \\uXXXX escape (surrogate pairs beyond the BMP)"""
     k = v["k"]
     if k == "null":
         return "null"
@@ -107,12 +111,12 @@ def untag_json(v):
     if k == "float":
         return v["f"]
     if k == "str":
-        return json.dumps(v["s"], ensure_ascii=False)
+        return json.dumps(v["s"], ensure_ascii=ascii)
     if k == "arr":
-        return "[" + ",".join(untag_json(x) for x in v["a"]) + "]"
+        return "[" + ",".join(untag_json(x, ascii) for x in v["a"]) + "]"
     if k == "obj":
         o = v["o"] if isinstance(v["o"], dict) else {}
-        return "{" + ",".join(json.dumps(kk, ensure_ascii=False) + ":" + untag_json(x) for kk, x in o.items()) + "}"
+        return "{" + ",".join(json.dumps(kk, ensure_ascii=ascii) + ":" + untag_json(x, ascii) for kk, x in o.items()) + "}"
     raise TypeError(v)
 
 
